@@ -99,7 +99,7 @@ Fixpoint spec_steps (sel : op -> bool -> bool) (sink_nil : bool) (k : N) (s : ss
       (* weights_inv, observed: after a head computation or an update every node weighs what the Spec says *)
       let wok := match o, go with
                  | (OHead | OFindHead _ _ | OUpdate _ _ _ _ _), (GoOk _ | GoErr) =>
-                     ss_partial s' || Uint63.eqb (spec_wchk s') (u wchk)
+                     negb (sel OHead false) (* the weights belong to C09 *) || ss_partial s' || Uint63.eqb (spec_wchk s') (u wchk)
                  | _, _ => true end in
       let good := meets e go && logok && wok in
       if sel o moved && negb good then (k, late') else
